@@ -1,7 +1,7 @@
 SPECIFICATION TraceSpec
 CONSTANTS FailScope = "none"
 CONSTRAINT Track
-INVARIANTS Conform KnownFacts TypeOK C36_SystemBypass C36_DisbandTerminal C36_Precedence C36_ErrorsOnlyWhenConsulted
+INVARIANTS Conform KnownFacts TypeOK C36_SystemBypass C36_DisbandTerminal C36_Precedence C36_ErrorsOnlyWhenConsulted C36_CompanyIrrelevant
 PROPERTIES C36_PathsAgree
 POSTCONDITION Accepted
 CHECK_DEADLOCK FALSE
